@@ -296,6 +296,10 @@ type WEnv struct {
 // callQuiet records an API call that is expected to fail (invalid request): no Failed flag.
 func (e *WEnv) callQuiet(name string, f func() error) *APICall {
 	ac := APICall{Name: name, W0: len(e.NC.Writes), Op0: len(e.NC.Ops)}
+	if e.Mask != nil {
+		e.Mask.Epoch = len(e.Calls)
+		ac.Epoch = e.Mask.Epoch
+	}
 	e.curCall = len(e.Calls)
 	ac.Err = f()
 	ac.W1, ac.Op1 = len(e.NC.Writes), len(e.NC.Ops)
